@@ -79,6 +79,38 @@ def strategy(tier):
     return _case()
 
 
+ALPHA = ["start", "stop", "find-mc", "find-uc", "unannounce", "announce", "T-q", "T+q", "T+4", "+0.3"]
+ENUM_LEN = {"quick": 4, "thorough": 5}
+ENUM_TM = [dict(imin=0.01, imax=0.1, reps=2, base=0.05, cyc=1, ttl=3, coll=0.005, rmin=0.02, rmax=0.3),
+           dict(imin=0, imax=0, reps=1, base=0.05, cyc=0, ttl=INF, coll=0, rmin=0.003, rmax=0.02)]
+EXHAUSTIVE = {"quick": "all 10^4 scripts of length 4 over {start, stop, multicast Find, unicast Find, stop_announce, announce} x timing prefixes {next timer -RES/4, +RES/4, +4RES, +0.3 s}, for a cyclic configuration with collection timeout and a non-cyclic one without, two instances",
+              "thorough": "all 10^5 scripts of length 5 over the same alphabet and configurations"}
+
+
+def enum_size(tier):
+    return len(ENUM_TM) * len(ALPHA) ** ENUM_LEN[tier]
+
+
+def enum_case(tier, idx):
+    idx, ci = divmod(idx, len(ENUM_TM))
+    steps = [{"op": "start", "when": ["d", 0.01]}, {"op": "wait", "when": ["d", 0.2]}]
+    when = ["d", 0.01]
+    for _ in range(ENUM_LEN[tier]):
+        idx, r = divmod(idx, len(ALPHA))
+        a = ALPHA[r]
+        if a in ("T-q", "T+q", "T+4", "+0.3"):
+            when = {"T-q": ["t", 0, "-q"], "T+q": ["t", 0, "+q"], "T+4": ["t", 0, "+4"], "+0.3": ["d", 0.3]}[a]
+            continue
+        if a.startswith("find"):
+            steps.append({"op": "find", "mc": a == "find-mc", "i": 0, "wild": True, "src": 0, "when": when})
+        elif a in ("announce", "unannounce"):
+            steps.append({"op": a, "i": 1, "when": when})
+        else:
+            steps.append({"op": a, "when": when})
+        when = ["d", 0.01]
+    return {"kind": "script", "tm": ENUM_TM[ci], "n": 2, "fr": [0.5, 1.0], "steps": steps}
+
+
 def fixed_cases(tier):
     out = [{"kind": "helper"}, {"kind": "helper", "offered": False}]
     base = dict(imin=0.01, imax=0.1, reps=2, base=0.05, cyc=1, ttl=3, coll=0.005, rmin=0.02, rmax=0.3)
